@@ -11,6 +11,7 @@ import Drivers.Common
 import RioModel.Model.ActionJson
 import RioModel.Model.ActionTrace
 import RioModel.Model.IntoRoute
+import RioModel.Model.UnitTrace
 import RioModel.Model.RouterJson
 open Lean Rio.Action Rio.Action.Codec
 
@@ -120,6 +121,23 @@ def handle (j : Json) : Except String Json := do
 
 end IR
 
+/-! ### the unit trace (package W3e): canonical content as the harness prints it -/
+
+def sortStr (l : List String) : List String := l.mergeSort (fun a b => decide (a ≤ b))
+
+def jTrace (t : UnitTrace) : Json :=
+  let values := t.valueComputedByUnits.mergeSort (fun a b => decide (a.1 ≤ b.1))
+  Json.mkObj [("rules", jIds t.ruleIdsApplied), ("applied", toJson t.unitIdsApplied),
+    ("seen", toJson (sortStr t.unitIdsSeen)),
+    ("values", Json.arr (values.map fun kv => Json.arr #[toJson kv.1, toJson kv.2]).toArray)]
+
+def diffProbe : List String := ["hu00", "ru0", "lu0", "cu0", "bu00", "nope", "ru0", "hu10", "ru1"]
+
+def jUt (ruleIds : List RuleId) (t : UnitTrace) : Json :=
+  let post := t.squash
+  Json.mkObj [("pre", jTrace t), ("post", jTrace post), ("diff", toJson (post.diff diffProbe)),
+    ("contains", toJson (ruleIds.map fun id => post.ruleIdsContains id))]
+
 def handle (j : Json) : Except String Json := do
   if (Drv.str? j "kind").toOption == some "into_route" then return ← IR.handle j
   let rules ← parseRules j
@@ -145,11 +163,25 @@ def handle (j : Json) : Except String Json := do
       Json.arr (steps.map fun t =>
         Json.mkObj [("id", toJson (stringOfId t.rule.id)), ("action", jAction t.action)]).toArray
     else Json.null
+  -- the unit trace: the same fold and the same observer sequence, with `Some(trace)`
+  let probeIds := rules.map (·.id) ++ [idOfString "nope"]
+  let env : EnvT := ⟨String.toLower, stringOfId, headers, body, allow⟩
+  let ft := fromRoutesRuleT rules q lo (some UnitTrace.empty)
+  if ft.1 != aLo then throw "model: the fold computes another action with a unit trace"
+  let t0 ← match ft.2 with
+    | some t => pure t
+    | none => throw "model: trace lost"
+  let utOf (c : Nat) : Except String Json :=
+    match (runOpsT env c ft.1 (some t0) ops).2.2 with
+    | some t => pure (jUt probeIds t)
+    | none => throw "model: trace lost"
+  let uts ← codes.mapM utOf
   let render (useRef : Bool) (a : Action) (steps : List TraceAction)
       (obs : Nat → List (OpResult × List RuleId)) : Json :=
-    Json.mkObj [("action", jAction a), ("trace", jSteps steps),
-      ("codes", Json.arr (codes.map fun c =>
-        Json.mkObj [("c", toJson c), ("ops", Json.arr ((obs c).map (renderOp useRef headers body)).toArray)]).toArray)]
+    Json.mkObj [("action", jAction a), ("trace", jSteps steps), ("ut0", jTrace t0),
+      ("codes", Json.arr ((codes.zip uts).map fun (c, ut) =>
+        Json.mkObj [("c", toJson c), ("ut", ut),
+          ("ops", Json.arr ((obs c).map (renderOp useRef headers body)).toArray)]).toArray)]
   let m := render false aLo (traceActions rules q lo) (fun c => runOps allow c aLo ops)
   let sorted := Spec.insertionSort rules
   let C := Spec.contributing q lo sorted
